@@ -13,6 +13,7 @@ def dispatch (engine : String) (toks : List String) : String :=
   | "writer" => writerLine toks
   | "reader" => readerLine toks
   | "layout" => readerLine toks
+  | "foreign" => readerLine toks
   | "spec" => specLine toks
   | "enc" => encLine toks
   | _ => "BADENGINE"
